@@ -13,40 +13,40 @@ variable {san : Nat → Nat}
 section micro
 variable {s : State} {t : Nat}
 
-theorem step_passIter {v : List Nat} {k sid : Nat} {x : ScopeS} (hpc : pcOf s t = .passIter v)
-    (hk : k ∉ v) (hl : lookup s k = some sid) (hx : scopeOf s sid = some x) :
-    step san s (.step t k) = some (setPc s t (.passSwap (k :: v) k sid x.closed)) := by
+theorem step_passIter {v : List (Nat × Nat)} {k sid : Nat} {x : ScopeS} (hpc : pcOf s t = .passIter v)
+    (hk : (k, sid) ∉ v) (hl : lookup s k = some sid) (hx : scopeOf s sid = some x) :
+    step san s (.step t k) = some (setPc s t (.passSwap ((k, sid) :: v) k sid x.closed)) := by
   simp [step, hpc, hk, hl, hx]
 
-theorem step_passSwap {v : List Nat} {k sid c' : Nat} {c : Bool} {x : ScopeS}
+theorem step_passSwap {v : List (Nat × Nat)} {k sid c' : Nat} {c : Bool} {x : ScopeS}
     (hpc : pcOf s t = .passSwap v k sid c) (hx : scopeOf s sid = some x) :
     step san s (.step t c') = some (setPc (setScope s sid { x with cell := [] }) t
       (if x.cell.isEmpty then .passAfter v k sid c else .passDeliver v k sid c x.cell)) := by
   simp [step, hpc, hx]
 
-theorem step_passDeliver {v : List Nat} {k sid c' : Nat} {c : Bool} {pd : List Token}
+theorem step_passDeliver {v : List (Nat × Nat)} {k sid c' : Nat} {c : Bool} {pd : List Token}
     (hpc : pcOf s t = .passDeliver v k sid c pd) :
     step san s (.step t c') = some (setPc { s with delivered := pd ++ s.delivered } t (.passAfter v k sid c)) := by
   simp [step, hpc]
 
-theorem step_passAfter_live {v : List Nat} {k sid c' : Nat} (hpc : pcOf s t = .passAfter v k sid false) :
+theorem step_passAfter_live {v : List (Nat × Nat)} {k sid c' : Nat} (hpc : pcOf s t = .passAfter v k sid false) :
     step san s (.step t c') = some (setPc s t (.passIter v)) := by
   simp [step, hpc]
 
-theorem step_passAfter_closed {v : List Nat} {k sid c' : Nat} (hpc : pcOf s t = .passAfter v k sid true) :
+theorem step_passAfter_closed {v : List (Nat × Nat)} {k sid c' : Nat} (hpc : pcOf s t = .passAfter v k sid true) :
     step san s (.step t c') = some (setPc (delReader s t) t (.passUnlocked v k sid)) := by
   simp [step, hpc]
 
-theorem step_passUnlocked {v : List Nat} {k sid c' : Nat} (hpc : pcOf s t = .passUnlocked v k sid)
+theorem step_passUnlocked {v : List (Nat × Nat)} {k sid c' : Nat} (hpc : pcOf s t = .passUnlocked v k sid)
     (hr : s.readers = []) :
     step san s (.step t c') = some (setPc (deleteIfSame s k sid) t (.passRelock v k sid)) := by
   simp [step, hpc, hr]
 
-theorem step_passRelock {v : List Nat} {k sid c' : Nat} (hpc : pcOf s t = .passRelock v k sid) :
+theorem step_passRelock {v : List (Nat × Nat)} {k sid c' : Nat} (hpc : pcOf s t = .passRelock v k sid) :
     step san s (.step t c') = some (setPc (addReader s t) t (.passClear v k sid)) := by
   simp [step, hpc]
 
-theorem step_passClear {v : List Nat} {k sid c' : Nat} (hpc : pcOf s t = .passClear v k sid)
+theorem step_passClear {v : List (Nat × Nat)} {k sid c' : Nat} (hpc : pcOf s t = .passClear v k sid)
     (hv : visiting s sid = false) :
     step san s (.step t c') = some (setPc (clearScope s sid) t (.passIter v)) := by
   simp [step, hpc, hv]
@@ -61,7 +61,7 @@ theorem run_cons_of_step {s s1 : State} {e : Ev} {es : List Ev} (h : step san s 
 /-! ## a solo pass -/
 
 /-- thread `t` is walking the shard (`passIter v`), holds the only read lock, and everybody else is idle -/
-structure Solo (s : State) (t : Nat) (v : List Nat) : Prop where
+structure Solo (s : State) (t : Nat) (v : List (Nat × Nat)) : Prop where
   pc : pcOf s t = .passIter v
   readers : s.readers = [t]
   others : ∀ t', t' ≠ t → pcOf s t' = .idle
@@ -96,38 +96,38 @@ def visitEvs (s : State) (t k : Nat) : List Ev :=
     | none => []
     | some x => visitEvsA t k x ++ visitEvsB t x
 
-theorem visit_phaseA {s : State} {t k sid : Nat} {v : List Nat} {x : ScopeS} (hs : Solo s t v)
-    (hk : k ∉ v) (hl : lookup s k = some sid) (hx : scopeOf s sid = some x) :
-    ∃ sA, run san s (visitEvsA t k x) = some sA ∧ pcOf sA t = .passAfter (k :: v) k sid x.closed
+theorem visit_phaseA {s : State} {t k sid : Nat} {v : List (Nat × Nat)} {x : ScopeS} (hs : Solo s t v)
+    (hk : (k, sid) ∉ v) (hl : lookup s k = some sid) (hx : scopeOf s sid = some x) :
+    ∃ sA, run san s (visitEvsA t k x) = some sA ∧ pcOf sA t = .passAfter ((k, sid) :: v) k sid x.closed
       ∧ sA.readers = [t] ∧ (∀ t', t' ≠ t → pcOf sA t' = .idle)
       ∧ sA.scopes = s.scopes.set sid { x with cell := [] } ∧ sA.reg = s.reg
       ∧ sA.delivered = x.cell ++ s.delivered := by
   have h1 := step_passIter (san := san) hs.pc hk hl hx
-  have h2 := step_passSwap (san := san) (s := setPc s t (.passSwap (k :: v) k sid x.closed)) (t := t) (c' := 0)
+  have h2 := step_passSwap (san := san) (s := setPc s t (.passSwap ((k, sid) :: v) k sid x.closed)) (t := t) (c' := 0)
     (pcOf_setPc_self ..) (x := x) hx
   unfold visitEvsA
   by_cases hc : x.cell.isEmpty = true
   · rw [if_pos hc] at h2 ⊢
-    refine ⟨setPc (setScope (setPc s t (.passSwap (k :: v) k sid x.closed)) sid { x with cell := [] }) t
-      (.passAfter (k :: v) k sid x.closed), ?_, pcOf_setPc_self .., hs.readers,
+    refine ⟨setPc (setScope (setPc s t (.passSwap ((k, sid) :: v) k sid x.closed)) sid { x with cell := [] }) t
+      (.passAfter ((k, sid) :: v) k sid x.closed), ?_, pcOf_setPc_self .., hs.readers,
       others_setPc (s0 := setScope _ sid _) (others_setPc hs.others), rfl, rfl, ?_⟩
     · rw [List.append_nil, run_cons_of_step h1, run_cons_of_step h2]; rfl
     · rw [List.isEmpty_iff.mp hc]; rfl
   · rw [if_neg hc] at h2 ⊢
-    have h3 := step_passDeliver (san := san) (s := setPc (setScope (setPc s t (.passSwap (k :: v) k sid x.closed)) sid
-      { x with cell := [] }) t (.passDeliver (k :: v) k sid x.closed x.cell)) (t := t) (c' := 0)
+    have h3 := step_passDeliver (san := san) (s := setPc (setScope (setPc s t (.passSwap ((k, sid) :: v) k sid x.closed)) sid
+      { x with cell := [] }) t (.passDeliver ((k, sid) :: v) k sid x.closed x.cell)) (t := t) (c' := 0)
       (pcOf_setPc_self ..)
-    refine ⟨setPc { setPc (setScope (setPc s t (.passSwap (k :: v) k sid x.closed)) sid
-        { x with cell := [] }) t (.passDeliver (k :: v) k sid x.closed x.cell) with
-        delivered := x.cell ++ s.delivered } t (.passAfter (k :: v) k sid x.closed),
+    refine ⟨setPc { setPc (setScope (setPc s t (.passSwap ((k, sid) :: v) k sid x.closed)) sid
+        { x with cell := [] }) t (.passDeliver ((k, sid) :: v) k sid x.closed x.cell) with
+        delivered := x.cell ++ s.delivered } t (.passAfter ((k, sid) :: v) k sid x.closed),
       ?_, pcOf_setPc_self .., hs.readers, ?_, rfl, rfl, rfl⟩
     · show run san s [.step t k, .step t 0, .step t 0] = _
       rw [run_cons_of_step h1, run_cons_of_step h2, run_cons_of_step h3]; rfl
-    · exact others_setPc (s0 := { setPc (setScope (setPc s t (.passSwap (k :: v) k sid x.closed)) sid
-        { x with cell := [] }) t (.passDeliver (k :: v) k sid x.closed x.cell) with delivered := _ })
+    · exact others_setPc (s0 := { setPc (setScope (setPc s t (.passSwap ((k, sid) :: v) k sid x.closed)) sid
+        { x with cell := [] }) t (.passDeliver ((k, sid) :: v) k sid x.closed x.cell) with delivered := _ })
         (others_setPc (s0 := setScope _ sid _) (others_setPc hs.others))
 
-theorem visit_phaseB_live {sA : State} {t k sid : Nat} {v : List Nat}
+theorem visit_phaseB_live {sA : State} {t k sid : Nat} {v : List (Nat × Nat)}
     (hpc : pcOf sA t = .passAfter v k sid false) (hr : sA.readers = [t])
     (ho : ∀ t', t' ≠ t → pcOf sA t' = .idle) :
     ∃ s', run san sA [.step t 0] = some s' ∧ Solo s' t v ∧ s'.scopes = sA.scopes ∧ s'.reg = sA.reg
@@ -135,7 +135,7 @@ theorem visit_phaseB_live {sA : State} {t k sid : Nat} {v : List Nat}
   ⟨_, by rw [run_cons_of_step (step_passAfter_live (san := san) hpc)]; rfl,
     ⟨pcOf_setPc_self .., hr, others_setPc ho⟩, rfl, rfl, rfl⟩
 
-theorem visit_phaseB_closed {sA : State} {t k sid : Nat} {v : List Nat} {y : ScopeS} (h : Inv san sA)
+theorem visit_phaseB_closed {sA : State} {t k sid : Nat} {v : List (Nat × Nat)} {y : ScopeS} (h : Inv san sA)
     (hpc : pcOf sA t = .passAfter v k sid true) (hr : sA.readers = [t])
     (ho : ∀ t', t' ≠ t → pcOf sA t' = .idle) (hy : scopeOf sA sid = some y) :
     ∃ s', run san sA [.step t 0, .step t 0, .step t 0, .step t 0] = some s' ∧ Solo s' t v
@@ -177,9 +177,9 @@ def visitedScope (x : ScopeS) : ScopeS :=
 def regAfterVisit (reg : List (Nat × Nat)) (k sid : Nat) (x : ScopeS) : List (Nat × Nat) :=
   if x.closed then reg.filter (fun (k', w) => !(k' == k && w == sid)) else reg
 
-theorem visit_run {s : State} {t k sid : Nat} {v : List Nat} {x : ScopeS} (h : Inv san s) (hs : Solo s t v)
-    (hk : k ∉ v) (hl : lookup s k = some sid) (hx : scopeOf s sid = some x) :
-    ∃ s', run san s (visitEvs s t k) = some s' ∧ Solo s' t (k :: v)
+theorem visit_run {s : State} {t k sid : Nat} {v : List (Nat × Nat)} {x : ScopeS} (h : Inv san s) (hs : Solo s t v)
+    (hk : (k, sid) ∉ v) (hl : lookup s k = some sid) (hx : scopeOf s sid = some x) :
+    ∃ s', run san s (visitEvs s t k) = some s' ∧ Solo s' t ((k, sid) :: v)
       ∧ s'.scopes = s.scopes.set sid (visitedScope x) ∧ s'.reg = regAfterVisit s.reg k sid x
       ∧ s'.delivered = x.cell ++ s.delivered := by
   obtain ⟨sA, hA, hpcA, hrA, hoA, hscA, hregA, hdA⟩ := visit_phaseA hs hk hl hx
@@ -272,7 +272,7 @@ theorem lookup_of_mem_nodup {reg : List (Nat × Nat)} (hnd : (reg.map (·.1)).No
 keys still to be visited, and under at least one of them unless it has been reported already; a scope registered
 under several keys (its identity and raw aliases) is visited once per key, each visit removing that key's entry -/
 theorem pass_run {t sid0 : Nat} {x0 : ScopeS} (hc0 : x0.closed = true) :
-    ∀ (ks : List Nat) (s : State) (v : List Nat), Inv san s → Solo s t v → ks.Nodup → (∀ k ∈ ks, k ∉ v) →
+    ∀ (ks : List Nat) (s : State) (v : List (Nat × Nat)), Inv san s → Solo s t v → ks.Nodup → (∀ k ∈ ks, k ∉ v.map (·.1)) →
       (∀ k ∈ ks, (lookup s k).isSome = true) →
       (∀ k', (k', sid0) ∈ s.reg → k' ∈ ks) →
       ((scopeOf s sid0 = some x0 ∧ ∃ k0, k0 ∈ ks ∧ lookup s k0 = some sid0) ∨ Reported s sid0 x0) →
@@ -303,7 +303,8 @@ theorem pass_run {t sid0 : Nat} {x0 : ScopeS} (hc0 : x0.closed = true) :
     obtain ⟨sid, hl⟩ := Option.isSome_iff_exists.mp (hreg k (List.mem_cons_self ..))
     obtain ⟨x, hx, hxi⟩ := h.static.regIdent k sid (mem_of_lookup hl)
     have hx' : scopeOf s sid = some x := hx
-    obtain ⟨s', hrun, hsolo, hsc, hrg, hdl⟩ := visit_run h hs (hkv k (List.mem_cons_self ..)) hl hx'
+    obtain ⟨s', hrun, hsolo, hsc, hrg, hdl⟩ := visit_run h hs
+      (fun hm => hkv k (List.mem_cons_self ..) (List.mem_map.mpr ⟨(k, sid), hm, rfl⟩)) hl hx'
     have h' := inv_run h hrun
     have hlt := scopeOf_lt hx'
     have hother : ∀ sid1, sid1 ≠ sid → scopeOf s' sid1 = scopeOf s sid1 := by
@@ -362,9 +363,10 @@ theorem pass_run {t sid0 : Nat} {x0 : ScopeS} (hc0 : x0.closed = true) :
         · right
           exact ⟨⟨x1, by rw [hother sid0 hsid]; exact hx1, hcl1, hc1⟩,
             fun tok hm' => by rw [hdl]; exact List.mem_append_right _ (hd tok hm')⟩
-    obtain ⟨s'', hrun', hidle, hrd, hcol⟩ := ih s' (k :: v) h' hsolo hnd'.2
+    obtain ⟨s'', hrun', hidle, hrd, hcol⟩ := ih s' ((k, sid) :: v) h' hsolo hnd'.2
       (by
         intro k' hk' hm
+        rw [List.map_cons] at hm
         rcases List.mem_cons.mp hm with e | hm
         · subst e; exact hnd'.1 hk'
         · exact hkv k' (List.mem_cons_of_mem _ hk') hm)
